@@ -473,6 +473,22 @@ def fit(ctx):
                                       'max_nfev', 'verbose', 'jac', 'x_scale')
                      and not (k.arg == 'loss' and isinstance(
                          k.value, ast.Constant) and k.value.value == 'linear')]
+            # convergence controls: scipy defaults are max_nfev = 100 n and
+            # ftol = xtol = gtol = 1e-8; a literal that is weaker than the
+            # default stops the solver before an exact combination of the
+            # first N terms is recovered (the status is never checked)
+            for k in ls[-1].node.keywords:
+                v = k.value
+                if isinstance(v, ast.Constant) and isinstance(
+                        v.value, (int, float)) and not isinstance(
+                        v.value, bool):
+                    if k.arg == 'max_nfev' and v.value < 100:
+                        bad = (f'least_squares stops after max_nfev='
+                               f'{v.value} evaluations (default 100 n): the '
+                               f'solution is stored unconverged')
+                    if k.arg in ('ftol', 'xtol', 'gtol') and v.value > 1e-8:
+                        bad = (f'least_squares tolerance {k.arg}={v.value} '
+                               f'is looser than the default 1e-8')
             if extra:
                 bad = (f'least_squares is called with {extra}: the fit is no '
                        f'longer the plain least-squares projection (not linear '
@@ -523,4 +539,44 @@ def no_stale(ctx):
                        min_methods=3)
 
 
-RULES = [no_stale, linear, radial_law, norm_law, index_law, fit]
+def coeff_store(ctx):
+    """the coefficient vector is kept as given (or as floats): an array
+    conversion without a float dtype turns the library's own integer-zero
+    default into an int64 array, and a later `z.coeffs[k] = 0.25` is
+    truncated to 0 - evaluation is then not linear in the coefficients."""
+    from ..match import match, parse
+    P = ctx.P
+    res = Result('COEFF-STORE', 'Zernike constructors keep the coefficient '
+                 'sequence as given or as a float array (never an integer '
+                 'array); ZernikeFit hands its family num_terms zeros')
+    ok_forms = [parse(x) for x in (
+        'coeffs', 'list(coeffs)', 'np.asarray(coeffs, dtype=float)',
+        'np.array(coeffs, dtype=float)', 'np.asarray(coeffs, dtype=np.float64)',
+        'np.array(coeffs, dtype=np.float64)', 'np.asarray(coeffs, float)',
+        'np.array(coeffs, float)', '[float($c) for $c in coeffs]',
+        'np.asarray(coeffs).astype(float)', 'np.array(coeffs).astype(float)')]
+    n = 0
+    for cn in ('ZernikeStandard', 'ZernikeFringe', 'ZernikeNoll'):
+        f = P.classes[cn].methods.get('__init__')
+        if f is None:
+            continue
+        res.saw(f)
+        for st in ast.walk(f.node):
+            if isinstance(st, ast.Assign) and \
+                    unparse(st.targets[0]) == 'self.coeffs':
+                n += 1
+                if any(match(pt, st.value, {}) is not None for pt in ok_forms):
+                    res.ok(f'{cn}.__init__: coeffs := {unparse(st.value)}')
+                else:
+                    res.fail(ctx.finding(
+                        'COEFF-STORE', f, st,
+                        f'{cn}.__init__ stores {unparse(st.value)}: an '
+                        f'integer coefficient list becomes an integer array '
+                        f'and later non-integer coefficients are truncated',
+                        construct=f'{cn} coefficient store'))
+    if n < 1:
+        raise AnalysisError('COEFF-STORE: no coefficient store found')
+    return res
+
+
+RULES = [coeff_store, no_stale, linear, radial_law, norm_law, index_law, fit]
